@@ -656,7 +656,7 @@ def install(extra_np=(), extra_float=(), extra_int=(), extra_maxmin=()):
         m.np = FACADE
     for m in (wf, pl, SQ, BR, SM, eom) + tuple(extra_float):
         m.float = sym_float
-    for m in (bc, wf, SQ) + tuple(extra_int):
+    for m in (bc, wf, SQ, eom) + tuple(extra_int):
         m.int = sym_int
     for m in (S, BR, SM, SQ, pl) + tuple(extra_maxmin):
         m.max = smax
